@@ -324,16 +324,16 @@ def ref_burst_mask(sig, fs, f_range, amp_threshes=(1, 2), min_n_cycles=3, min_bu
                                         **fk).astype(bool)
 
 
-def ref_band_amp(sig, fs, f_range):
+def ref_band_amp(sig, fs, f_range, n_cycles=3):
     try:
-        return _ref_band_amp(sig, fs, f_range)
+        return _ref_band_amp(sig, fs, f_range, n_cycles)
     except Exception as exc:  # noqa
         from harness import Discard
         raise Discard('trusted neurodsp amp_by_time raises %s' % type(exc).__name__)
 
 
-def _ref_band_amp(sig, fs, f_range):
-    return amp_by_time(np.asarray(sig, dtype=float), fs, tuple(f_range), remove_edges=False, n_cycles=3)
+def _ref_band_amp(sig, fs, f_range, n_cycles=3):
+    return amp_by_time(np.asarray(sig, dtype=float), fs, tuple(f_range), remove_edges=False, n_cycles=n_cycles)
 
 
 # -------------------------------------------------------------------------------------------------
